@@ -176,7 +176,9 @@ def query_matrix(ctx, obj, model, uni, markings, ver, carrier, thin, rng):
                                 s, inh, desc, mr, lg, sorted(got), sorted(exp)),
                                 {"object": to_json(obj), "selector": s, "flags": {"inherited": inh, "descendants": desc, "marking_ref": mr, "lang": lg},
                                  "got": sorted(got), "expected": sorted(exp)})
-                for mkg in markings + [None]:
+                # (also asked about: language tags which differ from a stored one in letter case only -- other strings, to every operation alike)
+                respelt = sorted({v for m_ in markings if MM.kind_of(m_) == "lang" for v in (m_.upper(), m_.lower(), m_.title()) if v not in markings})
+                for mkg in markings + respelt + [None]:
                     ctx.ev()
                     ctx.count("queries")
                     try:
@@ -229,7 +231,7 @@ def wl_history(ctx, rng, i):
         ctx.skip("selector universe too small")
         return
     refs = [TLP[0], TLP[1], "marking-definition--" + V.uuid_text(rng, 4)]
-    langs = ["en", "fr"] if ver == "2.1" else []
+    langs = ["en", "fr", "en-US"] if ver == "2.1" else []
     markings = refs + langs
     # construction-time markings
     init_g = []
